@@ -133,6 +133,15 @@ def well_defined_images(d, tier, rng, sexe, want_x=True):
         open(sf, "w").write(A.src_of(prog))
         if vlib.sh([os.path.join(corpus.tools(), "hexasm"), sf, "-o", bf], timeout=300).returncode == 0 and os.path.exists(bf):
             cands.append((name, bf, b""))
+    # hand-written images whose exit value is a whole register (an LDAP result, a sign test on it) or that branch before anything
+    # has written areg: C06's shim programs
+    from checks import c06
+    for name, prog, src in c06.shim_programs():
+        if name.startswith(('word:', 'early:')):
+            sf = os.path.join(bd, name.replace(':', '_') + ".S"); bf = os.path.join(bd, name.replace(':', '_') + ".bin")
+            open(sf, "w").write(src)
+            if vlib.sh([os.path.join(corpus.tools(), "hexasm"), sf, "-o", bf], timeout=300).returncode == 0 and os.path.exists(bf):
+                cands.append((name, bf, b""))
     # ask the specification which of them stay inside the precondition
     simcases = [{'id': str(k), 'bin': open(b, 'rb').read().hex(), 'input': inp.hex(), 'maxcycles': 0, 'trace': 0, 'dirty': -1, 'maxsteps': 400000} for k, (i, b, inp) in enumerate(cands)]
     cf = os.path.join(d, "wd.cases"); of = os.path.join(d, "wd.out")
